@@ -641,13 +641,20 @@ func (c *Config) serverInit(originalConfig *Config) {
 		}
 	}
 
+	var keys []ticketKey
 	if originalConfig != nil {
 		originalConfig.mutex.RLock()
-		c.sessionTicketKeys = originalConfig.sessionTicketKeys
+		keys = originalConfig.sessionTicketKeys
 		originalConfig.mutex.RUnlock()
 	} else {
-		c.sessionTicketKeys = []ticketKey{ticketKeyFromBytes(c.SessionTicketKey)}
+		keys = []ticketKey{ticketKeyFromBytes(c.SessionTicketKey)}
 	}
+	// SetSessionTicketKeys may run concurrently with the first handshake
+	c.mutex.Lock()
+	if len(c.sessionTicketKeys) == 0 {
+		c.sessionTicketKeys = keys
+	}
+	c.mutex.Unlock()
 }
 
 func (c *Config) ticketKeys() []ticketKey {
